@@ -108,8 +108,8 @@ func cells(run *ev.Run, unit int64, r *rand.Rand, stored int, sub uint64, N uint
 	if stored > 0 {
 		sv = uint64(stored)
 	}
-	l.Branches[1] = &reftree.Tree{Seed: l.Branches[0].Seed, TagA: 1, TagB: 7, Fork: sv / 2}
-	l.Branches[2] = &reftree.Tree{Seed: l.Branches[0].Seed, TagA: 1, TagB: 8, Fork: sv}
+	l.ReplaceBranch(1, &reftree.Tree{Seed: l.Branches[0].Seed, TagA: 1, TagB: 7, Fork: sv / 2})
+	l.ReplaceBranch(2, &reftree.Tree{Seed: l.Branches[0].Seed, TagA: 1, TagB: 8, Fork: sv})
 	keys, _ := wit.NewWitKeys(r, []bool{false, true}, true)
 	olds := []uint64{}
 	for o := uint64(0); o <= N; o++ {
